@@ -3,6 +3,7 @@ package main
 // govc check: decide one property on /repo's working tree.
 
 import (
+	"runtime/pprof"
 	"crypto/sha256"
 	"encoding/json"
 	"flag"
@@ -196,9 +197,16 @@ func cmdCheck(args []string) {
 			continue
 		}
 		seen[k] = true
+		tu := time.Now()
 		u := v.verifyFunc(fn, con)
+		if *verbose {
+			fmt.Printf("  encoded %s in %.1fs (%d obligations)\n", funcDisplayName(fn), time.Since(tu).Seconds(), len(u.Obls))
+		}
 		units = append(units, u)
 		funcsUnder = append(funcsUnder, funcDisplayName(fn))
+	}
+	if *verbose {
+		fmt.Printf("  all units encoded at %.1fs\n", time.Since(t0).Seconds())
 	}
 	// zero-annotation sweep
 	if len(cfg.Sweep) > 0 {
@@ -391,6 +399,7 @@ func cmdCheck(args []string) {
 	}
 	fmt.Printf("property %s: %d obligations, %d discharged, %d violations, %d known findings, %.1fs\n", *prop, nObl, nDis, len(violations), len(kfHits), time.Since(t0).Seconds())
 	if len(violations) > 0 {
+		pprof.StopCPUProfile()
 		os.Exit(1)
 	}
 }
